@@ -5,6 +5,7 @@ Directed families (property quantifier + DESIGN §6 C09):
   moduli 1, 3, 2^BITS-1, 2^(BITS-1)+1, ~2^BITS/3, ~2^BITS/4, zero high limbs, random odd;
   bases 0, 1, m-1, 2, random (also unreduced); exponents 0, 1, 2^j, all-ones, random;
   k exhaustive (0..=BITS(e)) for 1-2 limb exponents, window-/limb-boundary values otherwise, k = 0;
+  boxed inputs found by simulation whose accumulator is >= 2m at loop exit (both final subtractions needed);
   multi-exponentiation with arrays of 1..=3 and slices of 0..=5 terms;
   lincomb with 1..=40 terms and moduli of 0..=63+ leading zero bits (several accumulation windows).
 """
@@ -150,6 +151,51 @@ def lincomb_lines(rng, kind, n, cnt_lz, counts):
             yield f'c09.lincomb {kind} {n} {hx(m)} {pairs_tok(lincomb_terms(rng, n, m, t))}'
 
 
+def double_sub_inputs(rng, nl, want):
+    """boxed ladder inputs whose accumulator is >= 2m when the loop exits, so that BOTH final conditional
+    subtractions are needed (DESIGN §6 C09 tag final_sub = 2). Random inputs essentially never get there; this
+    searches with a value-level simulation of the almost-Montgomery ladder (8-bit exponents, moduli in
+    (0.40, 0.495)·2^BITS) and returns (modulus, base, exponent) triples."""
+    Rn = 1 << (64 * nl)
+    out = []
+    while len(out) < want:
+        m = rng.randrange(Rn * 40 // 100, Rn * 495 // 1000) | 1
+        k = (-pow(m, -1, Rn)) % Rn
+
+        def amm(a, b):
+            t = a * b
+            u = ((t % Rn) * k) % Rn
+            z = (t + u * m) // Rn
+            return z - m if z >= Rn else z
+        one = Rn % m
+        for _ in range(8):
+            x = rng.randrange(m)
+            xm = (x * Rn) % m
+            powers = [one, xm]
+            for _i in range(2, 16):
+                powers.append(amm(powers[-1], xm))
+            big = [i for i in range(2, 16) if 100 * powers[i] >= 155 * m]
+            if not big:
+                continue
+            hit = None
+            for hi_n in range(1, 16):
+                z = amm(one, powers[hi_n])
+                for _j in range(4):
+                    z = amm(z, z)
+                if 2 * z < 3 * m:
+                    continue
+                for lo_n in big:
+                    if amm(z, powers[lo_n]) >= 2 * m:
+                        hit = (m, x, (hi_n << 4) | lo_n)
+                        break
+                if hit:
+                    break
+            if hit:
+                out.append(hit)
+                break
+    return out
+
+
 def gen(tier, rng):
     q = tier == 'quick'
     # ---- panics / empties the documentation names
@@ -191,6 +237,11 @@ def gen(tier, rng):
             for ne in nes:
                 exhaustive = n <= 2 and ne <= 2 and (not q or rng.randrange(3) == 0)
                 yield from pow_lines(rng, 'boxed', n, m, ne, 1, 1, exhaustive, ksample=9 if q and n > 2 else None)
+    # accumulator >= 2m at loop exit: the second final conditional subtraction is needed (tag final_sub = 2)
+    for n in ([1, 2, 4, 9] if q else [1, 2, 3, 4, 6, 9, 17]):
+        for (m, x, e) in double_sub_inputs(rng, n, 3 if q else 12):
+            yield f'c09.powb boxed m {n} {hx(m)} 1 {hx(x)} {hx(e)} 8'
+            yield f'c09.powb boxed t {n} {hx(m)} 2 {hx(x)} {hx(e)} 8'
     # m = 1, k = 0 explicitly for every representation (DESIGN §7-14)
     for kind in ['dyn', 'const', 'boxed']:
         yield f'c09.powb {kind} m 1 1 1 0 5 0'
